@@ -522,8 +522,25 @@ def witness_covers(unit_name):
 DEGRADABLE = ('extraction:', 'front end:', 'undeclared ')
 
 
+def _code_changed(u):
+    """True unless every function the unit extracts has exactly the text recorded in the baseline."""
+    try:
+        base = json.load(open(BASELINE)).get(u.name, {}).get('sha')
+    except Exception:
+        base = None
+    if not base:
+        return False         # never verified on the pinned tree (or no text record): nothing to fall back from
+    g = getattr(u, 'gen', None)
+    if g is None or not getattr(g, 'fns', None):
+        return True          # extraction itself failed: an anchor was lost, so the text did change
+    cur = {r.qual: r.sha for r in g.fns}
+    return cur != base or bool(getattr(u, 'auto_stubs', None))
+
+
 def degradable(u):
     r = u.reason or ''
+    if not _code_changed(u):
+        return False
     # units whose argument is about interleavings (per-stream total order under concurrent writers): a sequential replay that
     # passes says nothing about schedules, so a proof that cannot be attempted stays UNDECIDED
     if unit_header_opts(os.path.join(VERIF, 'units', u.name)).get('nodegrade'):
@@ -757,7 +774,10 @@ def report(prop, tier, seed, results, extras, wall, rebaseline, replay):
         for lab in u.labels:
             samples.append('%s:%s' % (u.name, lab))
         newbase[u.name] = dict(functions=sorted({fr['fn'] for fr in u.functions_total if fr.get('success') is not None}),
-                               verified=u.verified_total)
+                               verified=u.verified_total,
+                               # text hashes of what the unit extracts: a proof that cannot be attempted although none of them
+                               # changed is a fault of the machinery, never a reason to fall back to the replay
+                               sha={fr['fn']: fr.get('sha256_16') for fr in u.functions_total if fr.get('sha256_16')})
         # vacuity / count floor
         b = baseline.get(u.name)
         if b and u.status == 'ok' and u.verified_total < b.get('verified', 0) and not rebaseline:
